@@ -242,6 +242,10 @@ def stdmath_obligations(check):
     for i, t in enumerate(types):
         tu += ('void use_math%d(const DimensionlessScalar<%s>& a, int n, %s e) { (void)std::abs(a); (void)std::cbrt(a); (void)std::exp(a); (void)std::log(a); '
                '(void)std::log2(a); (void)std::log10(a); (void)std::pow(a, n); (void)std::pow(a, e); (void)std::sqrt(a); }\n') % (i, t, t)
+        # exponents of the other types: the overload takes the exponent in its own type (an exponent wider than the quantity's
+        # numeric type, or an integer with more digits than its significand, must reach pow unconverted)
+        tu += ('void use_pow%d(const DimensionlessScalar<%s>& a, long l, %s e1, %s e2) { (void)std::pow(a, l); (void)std::pow(a, e1); (void)std::pow(a, e2); }\n'
+               % ((i, t) + tuple(u for u in types if u != t)))
     tu += '} }\n'
     wd = os.path.join(check.work, 'ast')
     a = astload.Ast()
@@ -285,6 +289,18 @@ def stdmath_obligations(check):
                 want = ('app', nm, (x,))
                 ok = sc.ret == want
             ob.text = 'std::%s(q%s) == %s(q.Value()%s) as a term over the stored number, for all values' % (nm, ', e' if nm == 'pow' else '', nm, ', e' if nm == 'pow' else '')
+            if ok and nm == 'pow':
+                # the arguments reach pow as they are: neither the stored number nor the exponent is converted to a type that
+                # cannot hold every value of its own type (the conversion of pow's result to the return type is the rounding
+                # the property allows and is not an argument)
+                arg_leaves = {x, e}
+                bits = {'float': 24, 'double': 53, 'long double': 64}
+                ibits = lambda w: (w - 1) if isinstance(w, int) else 63   # integer types are lowered to their width in bits
+                lost = [(to, frm) for (to, frm), v in zip(S.narrowings, S.narrowed_terms) if v in arg_leaves]
+                lost += [(to, frm) for to, frm, v in S.int_to_float if v in arg_leaves and ibits(frm) > bits.get(to, 24)]
+                if lost:
+                    ok = False
+                    sc.ret = 'pow of an argument converted from %s to %s, which cannot hold every value of that type' % ('a %d-bit integer' % lost[0][1] if isinstance(lost[0][1], int) else lost[0][1], lost[0][0])
             if ok and S.narrow_bad:
                 ok = False
                 sc.ret = 'a %s value narrowed to %s on its way into a %s result' % (S.narrow_bad[0][1], S.narrow_bad[0][0], S.narrow_bad[0][3])
@@ -300,10 +316,12 @@ def stdmath_obligations(check):
             suf = {'float': 'f', 'double': '', 'long double': 'l'}[T]
             arg2 = ', e' if nm == 'pow' else ''
             e_t = ps[1]['type']['qualType'].replace('const ', '') if nm == 'pow' else T
-            cpp = ('#include <PhQ/DimensionlessScalar.hpp>\n#include <cmath>\n#include <cstdio>\nint main() { int bad = 0; const %s xs[] = {0.25, 2.0, 3.5, 10.0, 100.0}; const %s e = 3;\n'
+            # an exponent that the quantity's numeric type cannot hold when its own type can
+            e_v = '(%s)0.1L' % e_t if e_t in ('float', 'double', 'long double') else ('16777217' if T == 'float' or e_t in ('int', 'short') else '9007199254740993')
+            cpp = ('#include <PhQ/DimensionlessScalar.hpp>\n#include <cmath>\n#include <cstdio>\nint main() { int bad = 0; const %s xs[] = {0.25, 2.0, 3.5, 10.0, 100.0, 1.00000011920928955078125, 1.0000000000000002220446049250313}; const %s e = %s;\n'
                    '  for (%s x : xs) { PhQ::DimensionlessScalar<%s> q(x); const %s got = std::%s(q%s); const %s want = std::%s(x%s);\n'
                    '    if (!(got == want)) { std::printf("MISMATCH std::%s(%%.17Lg) = %%.17Lg, the function of the stored number is %%.17Lg\\n", (long double)x, (long double)got, (long double)want); bad++; } }\n'
-                   '  return bad ? 1 : 0; }\n') % (T, e_t, T, T, T, nm, arg2, T, nm, arg2, nm)
+                   '  return bad ? 1 : 0; }\n') % (T, e_t, e_v, T, T, T, nm, arg2, T, nm, arg2, nm)
             rec = {'property': 'C04', 'obligation': ob.name, 'function': ob.function, 'source': ob.loc, 'verifier_output': ob.detail, 'cpp': cpp, 'confirmed': False}
             r, err = replay.build_and_run(cpp, os.path.join(check.work, 'replay'), 'r_' + re.sub(r'\W+', '_', ob.name))
             if err:
@@ -312,8 +330,8 @@ def stdmath_obligations(check):
                 rec['confirmed'], rec['mismatch'], rec['native_output'] = True, r.stdout.strip().split('\n')[:5], r.stdout[:800]
             check.violations.append((ob, write_replay(check, ob, rec), '' if rec['confirmed'] else 'no-failing-input-found'))
     check.extra['std_math_overloads_seen'] = seen
-    if seen != 27:
-        check.error('must-fire: expected 27 std:: math overload instantiations (8 functions, pow twice, 3 numeric types), found %d' % seen)
+    if seen != 36:
+        check.error('must-fire: expected 36 std:: math overload instantiations (8 functions, pow with five exponent types, 3 numeric types), found %d' % seen)
 
 
 def long_double_pass(check):
